@@ -304,3 +304,214 @@ def translate_inplace() -> tuple[str, dict]:
 
 
 GEN = {'RotInplace_gen': translate_inplace}
+
+
+# =============================================================================================== in-place rotation methods
+# Vec.localise / Vec.transform() / Angle.transform() / Vec.rotate, executed symbolically with the object language of the @
+# dispatch (translate/c04_formulas.py: Dispatch) plus: module-level helper functions (to_matrix) inlined, `x is None`,
+# parameters bound to concrete booleans, `yield m` (the body of the with block is `m @= rot`, run through the real
+# Matrix.__imatmul__), `self.__iadd__(origin)`, Matrix(), m.to_angle(), and field-by-field copies `self._f = other._f`.
+# Output: Gen/RotMethods_gen.v, one row per (method, kind of the rotation argument) with the final value of the receiver.
+class MethodExec(tr.Dispatch):
+    def __init__(self, C: tr.Classes, F: dict[str, Any], tree: ast.Module) -> None:
+        super().__init__(C, F)
+        self.funcs = {n.name: n for n in tree.body if isinstance(n, ast.FunctionDef)}
+        self.yielded: list[Any] = []
+        self.rot: Any = None
+        self.stores: dict[int, dict[str, tuple[Any, str]]] = {}
+
+    def cond(self, n: ast.expr, env: dict) -> bool:
+        if isinstance(n, ast.Compare) and len(n.ops) == 1 and isinstance(n.ops[0], (ast.Is, ast.IsNot)) \
+                and isinstance(n.comparators[0], ast.Constant) and n.comparators[0].value is None:
+            v = self.ev(n.left, env)
+            return (v == ('none',)) == isinstance(n.ops[0], ast.Is)
+        if isinstance(n, ast.Name) and isinstance(env.get(n.id), bool):
+            return env[n.id]
+        if isinstance(n, ast.Call) and isinstance(n.func, ast.Name) and n.func.id == 'isinstance' and len(n.args) == 2:
+            o = self.ev(n.args[0], env)
+            if o == ('none',):
+                return False
+        return super().cond(n, env)
+
+    def ev(self, n: ast.expr, env: dict) -> Any:
+        if isinstance(n, ast.Name) and n.id in env:
+            return env[n.id]
+        if isinstance(n, ast.Call) and not n.keywords:
+            f = n.func
+            if isinstance(f, ast.Name) and f.id in self.funcs and f.id not in env:
+                return self.call_function(self.funcs[f.id], [self.ev(a, env) for a in n.args], n)
+            if isinstance(f, ast.Name) and self.C.name(f.id) == 'Matrix' and not n.args:
+                return self.fresh('Matrix', ('Ident',))
+            if isinstance(f, ast.Name) and self.C.name(f.id) == 'Angle' and len(n.args) == 3:
+                vals = [self.ev(a, env) for a in n.args]
+                if vals == [('float', 'pitch'), ('float', 'yaw'), ('float', 'roll')]:
+                    return self.rot             # Angle(pitch, yaw, roll) of the three float parameters: the rotation argument
+                self.err(n, 'Angle(...) of something else than the pitch, yaw, roll parameters')
+            if isinstance(f, ast.Attribute) and f.attr == 'to_angle' and not n.args:
+                recv = self.obj(f.value, env)
+                if tr.KIND.get(recv.cls) == 'M':
+                    return self.call(recv, 'to_angle', [], n)
+        return super().ev(n, env)
+
+    def call_function(self, fn: ast.FunctionDef, args: list[Any], at: ast.AST) -> Any:
+        ps = tr._params(fn)
+        if len(ps) != len(args):
+            self.err(at, f'{fn.name}: arity')
+        env0 = dict(zip(ps, args))
+        chosen = None
+        for conds, stmts in tr.enum_paths(fn.body, fn.name):
+            try:
+                ok = all(self.cond(t, env0) == taken for t, taken in conds)
+            except TranslateError:
+                ok = False
+            if ok:
+                if chosen is not None:
+                    self.err(fn, 'two paths are enabled')
+                chosen = stmts
+        if chosen is None:
+            self.err(fn, f'{fn.name}: no path enabled')
+        self.trace.append(fn.name)
+        return self.run(chosen, env0)
+
+    def run_method(self, stmts: list[ast.stmt], env: dict, me: tr.DObj) -> Any:
+        """Like Dispatch.run, plus yield / __iadd__ / field copies; a method may fall off its end (returns None)."""
+        for s in stmts:
+            if isinstance(s, ast.Expr) and isinstance(s.value, ast.Yield) and s.value.value is not None:
+                m = self.obj(s.value.value, env)
+                self.yielded.append(m)
+                if self.rot is not None:                       # the with block: `m @= rot`
+                    res = self.binop('imatmul', m, self.rot, s)
+                    if res is not m:
+                        self.err(s, 'the yielded matrix is not updated in place by @=')
+                continue
+            if isinstance(s, ast.Expr) and isinstance(s.value, ast.Call) and isinstance(s.value.func, ast.Attribute) \
+                    and s.value.func.attr == '__iadd__' and len(s.value.args) == 1:
+                recv, arg = self.obj(s.value.func.value, env), self.obj(s.value.args[0], env)
+                if tr.KIND.get(recv.cls) != 'V' or tr.KIND.get(arg.cls) != 'V':
+                    self.err(s, '__iadd__ of non-vectors')
+                recv.val = ('VecAdd', recv.val, arg.val)
+                continue
+            if isinstance(s, ast.AugAssign) and isinstance(s.op, ast.Add) and isinstance(s.target, ast.Name):
+                recv, arg = self.obj(s.target, env), self.obj(s.value, env)      # `v += origin` is v.__iadd__(origin)
+                if tr.KIND.get(recv.cls) != 'V' or recv.cls != 'Vec' or tr.KIND.get(arg.cls) != 'V':
+                    self.err(s, '+= of something else than a mutable vector and a vector')
+                recv.val = ('VecAdd', recv.val, arg.val)
+                continue
+            if isinstance(s, ast.Assign) and len(s.targets) == 1 and isinstance(s.targets[0], ast.Attribute) \
+                    and isinstance(s.value, ast.Attribute):
+                tgt, src = self.obj(s.targets[0].value, env), self.obj(s.value.value, env)
+                self.stores.setdefault(id(tgt), {})[tr._fld(s.targets[0].attr)] = (src, tr._fld(s.value.attr))
+                fields = tr.ANG_FIELDS if tr.KIND.get(tgt.cls) == 'A' else tr.VEC_FIELDS
+                got = self.stores[id(tgt)]
+                if set(got) == set(fields):
+                    if all(got[f][0] is src and got[f][1] == f for f in fields) and tr.KIND.get(src.cls) == tr.KIND.get(tgt.cls):
+                        tgt.val = src.val
+                        tgt.partial = False        # type: ignore[attr-defined]
+                    else:
+                        self.err(s, 'field-by-field copy mixes fields or sources')
+                else:
+                    tgt.partial = True             # type: ignore[attr-defined]
+                continue
+            if isinstance(s, ast.If):
+                branch = s.body if self.cond(s.test, env) else s.orelse
+                r = self.run_method(list(branch), env, me)
+                if r is not None:
+                    return r
+                continue
+            if isinstance(s, ast.Return):
+                return ('returned', self.ev(s.value, env) if s.value is not None else ('none',))
+            if tr._is_docstring(s):
+                continue
+            # everything else: one statement of the dispatch language
+            try:
+                self.run([s, ast.Return(value=ast.Name(id='NotImplemented', ctx=ast.Load()))], env)
+            except TranslateError:
+                raise
+        return None
+
+
+METHODS = [('Vec', 'localise', 'MLocalise', ['Matrix', 'FrozenMatrix', 'Angle', 'FrozenAngle', 'None']),
+           ('Vec', 'transform', 'MVecTransform', ['Matrix', 'FrozenMatrix', 'Angle', 'FrozenAngle']),
+           ('Angle', 'transform', 'MAngTransform', ['Matrix', 'FrozenMatrix', 'Angle', 'FrozenAngle']),
+           ('Vec', 'rotate', 'MRotate', ['Angle'])]
+
+
+def mterm_coq(t: Any, names: dict[int, str]) -> str:
+    k = t[0]
+    if k in ('L', 'R', 'O'):
+        return {'L': 'MSelf', 'R': 'MRot', 'O': 'MOrigin'}[k]
+    if k == 'Ident':
+        return 'MIdent'
+    if k in ('FromAngle', 'ToAngle'):
+        return f'(M{k} {mterm_coq(t[1], names)})'
+    if k in ('MatMul', 'VecRot', 'VecAdd'):
+        return f'(M{k} {mterm_coq(t[1], names)} {mterm_coq(t[2], names)})'
+    raise TranslateError(f'in-place methods: term {t!r} is outside the method language')
+
+
+def method_rows() -> list[dict]:
+    text = src_text('math.py')
+    tree = ast.parse(text)
+    C = tr.Classes(tree)
+    F = tr.analyse()['F']
+    rows = []
+    for cls, name, coq, kinds in METHODS:
+        found = C.method(cls, name)
+        if found is None:
+            raise TranslateError(f'{cls}.{name} not found')
+        fn = found[1]
+        for d in fn.decorator_list:
+            dn = ast.unparse(d)
+            if not (dn.startswith('deprecated(') or dn in ('contextlib.contextmanager', 'contextmanager')):
+                raise TranslateError(f'{cls}.{name}: unknown decorator {dn}')
+        is_cm = any(ast.unparse(d).endswith('contextmanager') for d in fn.decorator_list)
+        ps = [a.arg for a in fn.args.posonlyargs + fn.args.args]
+        for rc in kinds:
+            ex = MethodExec(C, F, tree)
+            me = tr.DObj(cls, ('L',), 'L')
+            rot = ('none',) if rc == 'None' else tr.DObj(rc, ('R',), 'R')
+            ex.rot = None if rc == 'None' else rot
+            env: dict[str, Any] = {ps[0]: me}
+            if name == 'localise':
+                if ps[1:] != ['origin', 'angles']:
+                    raise TranslateError(f'Vec.localise: parameters {ps}')
+                env.update(origin=tr.DObj('Vec', ('O',), 'O'), angles=rot)
+            elif name == 'rotate':
+                if ps[1:] != ['pitch', 'yaw', 'roll', 'round_vals']:
+                    raise TranslateError(f'Vec.rotate: parameters {ps}')
+                env.update(pitch=('float', 'pitch'), yaw=('float', 'yaw'), roll=('float', 'roll'), round_vals=False)
+            elif len(ps) != 1:
+                raise TranslateError(f'{cls}.{name}: parameters {ps}')
+            body = [s for s in fn.body if not tr._is_docstring(s)]
+            res = ex.run_method(body, env, me)
+            if getattr(me, 'partial', False):
+                raise TranslateError(f'{cls}.{name}: the receiver is updated field by field and not all fields are stored')
+            if is_cm:
+                result_ok = len(ex.yielded) == 1 and res is None
+            elif name == 'rotate':
+                result_ok = res == ('returned', me)
+            else:
+                result_ok = res is None or res == ('returned', ('none',))
+            rows.append({'cls': cls, 'name': name, 'coq': coq, 'rot': rc, 'result_ok': result_ok, 'final_self': me.val,
+                         'final_rot': ('R',) if rc == 'None' else rot.val})
+    return rows
+
+
+def translate_methods() -> tuple[str, dict]:
+    rows = method_rows()
+    out = ['(* GENERATED by translate/c04_inplace.py from src/srctools/math.py (in-place rotation methods). Do not edit. *)',
+           'From Coq Require Import List.', 'From SV Require Import Rot.RotMethods.', 'Import ListNotations.', '',
+           'Definition method_table : list mrow := [']
+    items = []
+    side = []
+    for r in rows:
+        k = {'M': 'RMatrix', 'A': 'RAngle'}.get(tr.KIND.get(r['rot'], ''), 'RNone')
+        s, f = mterm_coq(r['final_self'], {}), mterm_coq(r['final_rot'], {})
+        items.append(f'  MRow {r["coq"]} {k} {"true" if r["result_ok"] else "false"} {s} {f}')
+        side.append({'method': f'{r["cls"]}.{r["name"]}', 'rotation_argument': r['rot'], 'receiver_finally': s, 'result_ok': r['result_ok']})
+    out.append(';\n'.join(items))
+    out += ['].', '']
+    return '\n'.join(out), {'rows': side}
+
+
+GEN['RotMethods_gen'] = translate_methods
